@@ -27,3 +27,9 @@ def tasks(tier, seed):
         func("bt.core.CouponPayingHedgeSecurity.update"),
         dict(kind="custom", module="props.lemmas", fn="c07_trade_lemmas"),
     ]
+
+
+def replay(o):
+    from pyvc.concrete import replay_scenario
+
+    return replay_scenario(o)
